@@ -130,7 +130,8 @@ func b2s(b bool) string {
 // non-ASCII spellings strings.ToLower folds onto these names — over-redaction the property does
 // not ask for; the model mirrors it, the oracle does not insist on it.)
 func isCredName(k string) bool {
-	b := []byte(k)
+	// a trailer field kept in a header map under http.TrailerPrefix is still that field
+	b := []byte(strings.TrimPrefix(k, "Trailer:"))
 	for i, c := range b {
 		if c >= 'A' && c <= 'Z' {
 			b[i] = c + 32
